@@ -55,6 +55,28 @@ def width_task(t):
             except AssertionError:
                 if inr:
                     report("to_bits-rejects-in-range", w, v, "to_bits(%d) raised" % w)
+            # history: the same object was decomposed before at another width (wider, narrower, the global one)
+            for first in (w + 2, max(w - 1, 0), None):
+                H.reset(bitlength=n)
+                x = rt.PrivVal(v)
+                st["executions"] += 1
+                try:
+                    x.to_bits(first) if first is not None else x.to_bits()
+                except AssertionError:
+                    pass
+                try:
+                    bits = x.to_bits(w)
+                    ok2 = len(bits) == w and [H.plain(b) for b in bits] == [(v >> i) & 1 for i in range(w)]
+                    if not inr:
+                        report("to_bits-accepts-out-of-range-after-earlier-decomposition", w, v,
+                               "to_bits(%d) accepted the value after an earlier to_bits(%s) on the same object" % (w, first))
+                    elif not ok2:
+                        report("round-trip-wrong-after-earlier-decomposition", w, v, "bits %s after an earlier to_bits(%s)" % ([H.plain(b) for b in bits], first))
+                    if H.R.unsatisfied():
+                        report("unsat", w, v, "constraints not satisfied after two decompositions")
+                except AssertionError:
+                    if inr:
+                        report("to_bits-rejects-in-range-after-earlier-decomposition", w, v, "to_bits(%d) raised after an earlier to_bits(%s)" % (w, first))
             for meth in ("assert_positive",):
                 H.reset(bitlength=n)
                 x = rt.PrivVal(v)
